@@ -51,15 +51,15 @@ fn chunks(r: &mut Rng) -> Vec<usize> { match r.below(4) { 0 => vec![1], 1 => vec
 pub fn emit_tt(sink: &mut Sink, cfg: &str, s: &Schema, se: &str, src: &str, b: &[u8], r: &mut Rng, tag: &str) {
     if src == "str" && std::str::from_utf8(b).is_err() { return; }
     let o = outcome(s, src, b, chunks(r));
-    sink.case("tt", &[cfg, src, se, &hexf(b)], &o, &format!("{}:{}:{}:{}", tag, schema_kind(s), src, class_of(&o)), b.len() > 1);
+    sink.case("tt", &[cfg, src, se, &hexf(b)], &o, &format!("{}:{}:{}", if tag == "mut" { "mut" } else { "text" }, schema_kind(s), class_of(&o)), b.len() > 1);
 }
 
-pub fn emit_tt3(sink: &mut Sink, cfg: &str, s: &Schema, se: &str, b: &[u8], r: &mut Rng, tag: &str) {
+pub fn emit_tt3(sink: &mut Sink, cfg: &str, s: &Schema, se: &str, b: &[u8], r: &mut Rng, _tag: &str) {
     let o1 = if std::str::from_utf8(b).is_ok() { outcome(s, "str", b, vec![]) } else { "-".into() };
     let o2 = outcome(s, "slice", b, vec![]);
     let o3 = outcome(s, "reader", b, chunks(r));
     let same = class_of(&o2) == class_of(&o3) && o2 == o3;
-    sink.case("tt3", &[cfg, se, &hexf(b)], &format!("{}|{}|{}", o1, o2, o3), &format!("{}:{}:{}:{}", tag, schema_kind(s), class_of(&o2), if same { "same" } else { "differ" }), b.len() > 1);
+    sink.case("tt3", &[cfg, se, &hexf(b)], &format!("{}|{}|{}", o1, o2, o3), &format!("3src:{}:{}:{}", schema_kind(s), class_of(&o2), if same { "same" } else { "differ" }), b.len() > 1);
 }
 
 // ---------------------------------------------------------------- texts
@@ -264,7 +264,7 @@ pub fn emit_pfxs(sink: &mut Sink, cfg: &str, s: &Schema, src: &str, doc: &[u8], 
         obs.push(o);
     }
     obs.push("A".into());
-    sink.case("pfxs", &[cfg, src, &enc_schema(s), &hexf(doc)], &obs.join(","), &format!("{}:{}:{}:{}", tag, schema_kind(s), src, worst), doc.len() > 1);
+    sink.case("pfxs", &[cfg, src, &enc_schema(s), &hexf(doc)], &obs.join(","), &format!("{}:{}:{}", tag, schema_kind(s), worst), doc.len() > 1);
 }
 
 /// the typed targets of `c10.rs` (`pfxt`) as schemas
